@@ -642,6 +642,27 @@ func runC06(c *worker.Ctx) {
 				res.Violate("C06/restarts", "C06/restarts-count", fmt.Sprintf("request %d: restarts reported %d, model %d (%v)\nprogram:\n%s", i, r.Proc.Restarts, v.restarts, obs, vcl))
 			}
 		}
+		// 2b. nothing to deliver: the miss branch went straight to vcl_deliver
+		// (deliver_stale) although this request fetched nothing, and no object was
+		// ever stored under its hash — there is no stale object in any
+		// implementation — and no vcl_error ran since the last (re-)entry of
+		// vcl_recv. The response delivered then can only be a left-over of an
+		// earlier pass of the request, which a restart discards.
+		if !reported && len(m.cache[hash]) == 0 && !contains(obs, "fetch") {
+			lastRecv := 0
+			for k, sname := range obs {
+				if sname == "recv" {
+					lastRecv = k
+				}
+			}
+			final := obs[lastRecv:]
+			for k := 0; k+1 < len(final); k++ {
+				if final[k] == "miss" && final[k+1] == "deliver" && !contains(final, "error") {
+					res.Violate("C06/path", "C06/path:miss→deliver(nothing to deliver)", fmt.Sprintf("request %d (%s): the final pass %v goes from vcl_miss to vcl_deliver without an error, but the request fetched nothing and no object was ever stored under its hash: whatever was delivered is a left-over of a pass before the restart\nwhole lifecycle: %v\nprogram:\n%s", i, r.Spec.URL, final, obs, vcl))
+					break
+				}
+			}
+		}
 		// 3. lookup/hit/miss consistency with persistent state and reports
 		if i == 0 && contains(obs, "hit") && !afterRestart(obs, "hit") {
 			res.Violate("C06/cache", "C06/cache:hit-on-fresh-simulator", fmt.Sprintf("first request to a fresh simulator took the hit branch: %v\nprogram:\n%s", obs, vcl))
